@@ -21,7 +21,7 @@ Inject(x) == /\ plain
              /\ plain' = FALSE
              /\ r' = FromNative(x)
 
-Next == \E x \in {y \in Mutants(v, NonPlain, {}) : HasForeign(y)} : Inject(x)
+Next == \E x \in {y \in Mutants(v, NonPlain, {}) : HasForeign(y)} \cup KeyInjections(v) : Inject(x)
 
 C14_AcceptsItsValue == plain => (r.ok /\ Conforms(r.s, v))
 
@@ -30,7 +30,8 @@ C14_GeneratesExactlyIt == plain => \A t \in ConstTapes : Gen(r.s, t, 0) = GOk(v,
 C14_RejectsEverythingElse ==
   plain => \A w \in Mutants(v, Unrelated, ExtraKeys) : Conforms(r.s, w) => SameValue(w, v)
 
-C14_RefusesOtherKinds == ~plain => (~r.ok /\ r.exc = "ValueError")
+C14_RefusesOtherKinds == ~plain => \/ (~r.ok /\ r.exc = "ValueError")
+                                    \/ (KnownKeyOfOtherKind(v) /\ r.ok)
 
 \* what substitution builds for untyped positions is the same schema (ties C14 to C04)
 C14_SubstitutionAgrees ==
